@@ -59,8 +59,8 @@ class C12(Prop):
     MODULE = "AwProofs.Props.C12"
     THEOREMS = ["AwProofs.C12.datastore_builtins_registered", "AwProofs.C12.eventcount_matches_memory", "AwProofs.C12.eventcount_matches_peewee", "AwProofs.C12.eventcount_matches_sqlite", "AwProofs.C12.find_bucket_returns_listed", "AwProofs.C12.listed_iff_exists_memory", "AwProofs.C12.listed_iff_exists_peewee", "AwProofs.C12.listed_iff_exists_sqlite", "AwProofs.C12.only_three_builtins_take_the_datastore", "AwProofs.C12.others_receive_exactly_their_arguments", "AwProofs.C12.others_receive_values_only", "AwProofs.C12.queries_only_read_heap", "AwProofs.C12.queries_only_read_heap_held", "AwProofs.C12.query_bucket_complete_memory", "AwProofs.C12.query_bucket_complete_peewee", "AwProofs.C12.query_bucket_complete_sqlite", "AwProofs.C12.query_bucket_eventcount_in_query", "AwProofs.C12.query_bucket_eventcount_is_count_memory", "AwProofs.C12.query_bucket_eventcount_is_count_peewee", "AwProofs.C12.query_bucket_eventcount_is_count_sqlite", "AwProofs.C12.query_bucket_in_query", "AwProofs.C12.query_bucket_is_windowed_get_memory", "AwProofs.C12.query_bucket_is_windowed_get_peewee", "AwProofs.C12.query_bucket_is_windowed_get_sqlite", "AwProofs.C12.query_bucket_sound_memory", "AwProofs.C12.query_bucket_sound_peewee", "AwProofs.C12.query_bucket_sound_sqlite", "AwProofs.C12.query_bucket_total_memory", "AwProofs.C12.query_bucket_total_peewee", "AwProofs.C12.query_is_a_function_of_reads", "AwProofs.C12.query_is_a_function_of_reads_ext", "AwProofs.C12.query_steps_stay_reachable", "AwProofs.C12.read_api_only_reads", "AwProofs.C12.reads_hand_out_fresh_copies", "AwProofs.C12.reads_stable_during_query", "AwProofs.C12.window_is_bucket_get_rounding"]
     WORKERS = 10
-    LEVEL_TEXT = "Lean 4 theorems: the query interpreter takes the store as a read-only argument and query_bucket/eventcount are the windowed read/count of the store model; in-place mutation of the returned events by builtins cannot reach the store (heap separation of C01)"
-    LEVEL_NOTE = "trusts: Lean kernel; builtin bodies other than the three datastore-taking ones are parameters of the interpreter model; the ownership argument is the C01 heap model (memory backend) and serialisation (file backends)"
+    LEVEL_TEXT = 'Lean 4 theorems: only_three_builtins_take_the_datastore (decided over the registry generated from aw_query.functions on every run), query_is_a_function_of_reads, query_bucket_is_windowed_get_B / query_bucket_eventcount_is_count_B for the three backend models, queries_only_read_heap (any sequence of reads and in-place mutations of handed-out objects leaves every observation unchanged); real queries run on the three backends with full dumps before and after'
+    LEVEL_NOTE = 'trusts: Lean kernel + 3 standard axioms; builtin bodies other than the three datastore-taking ones are parameters; a program that rebinds STARTTIME/ENDTIME moves its own window (outside the property)'
     TECHNIQUE = "Lean 4 proof (read-only interpreter + heap separation) + differential correspondence with full store dumps around real queries"
     RULE = (
         "generated programs that read two buckets, apply 1..4 builtins (annotating, clearing, re-timing, merging, "
